@@ -532,3 +532,15 @@ def coalesce_copies(fn: ast.FunctionDef) -> ast.FunctionDef:
                     n.body = [ast.Pass()]
     ast.fix_missing_locations(fn)
     return fn
+
+
+def module_resolver(module_tree: ast.Module, exclude: set | None = None):
+    """resolver for calls of functions of the same module by bare name"""
+    fns = {st.name: st for st in module_tree.body if isinstance(st, ast.FunctionDef)}
+
+    def resolve(call: ast.Call):
+        f = call.func
+        if isinstance(f, ast.Name) and f.id in fns and f.id not in (exclude or ()):
+            return fns[f.id], False
+        return None
+    return resolve
